@@ -329,9 +329,37 @@ static void sigCase(uint64_t k, Rng &rng, std::ostream &o) {
 	o << "end\n";
 }
 
+// Byte arrays and the bit-vector state (BitVectorState.cpp): createDefaultBitVectorState(span) and operator==(state, span).
+static void bytesCase(uint64_t k, Rng &rng, std::ostream &o) {
+	o << "case " << k << " B\n";
+	size_t nb = rng.chance(1, 10) ? 0 : (rng.chance(1, 3) ? 8 * (1 + rng.below(3)) : 1 + rng.below(26));
+	std::vector<std::byte> bytes(nb);
+	for (auto &b : bytes) b = (std::byte) (rng.chance(1, 6) ? 0 : rng.chance(1, 6) ? 255 : rng.below(256));
+	auto hex = [](const std::vector<std::byte> &v) { std::string r; static const char *d = "0123456789abcdef"; for (auto b : v) { r.push_back(d[(unsigned) b >> 4]); r.push_back(d[(unsigned) b & 15]); } if (r.empty()) r = "-"; return r; };
+	try {
+		DefaultBitVectorState st = createDefaultBitVectorState(std::span<const std::byte>(bytes));
+		o << "by c " << hex(bytes) << " -> " << vh::bitsToString(st) << '\n';
+		for (int t = 0; t < 6; t++) {
+			DefaultBitVectorState s2 = st;
+			std::vector<std::byte> cmp = bytes; cmp.reserve(nb + 16); // spare capacity: the implementation reads the last partial word as a whole word
+			if (nb && rng.chance(1, 2)) { size_t i = rng.chance(1, 2) ? s2.size() - 1 - rng.below(std::min<size_t>(s2.size(), 9)) : rng.below(s2.size()); s2.set(DefaultConfig::DEFINED, i, false); }
+			if (nb && rng.chance(1, 3)) { size_t i = rng.chance(1, 2) ? s2.size() - 1 - rng.below(std::min<size_t>(s2.size(), 9)) : rng.below(s2.size()); cmp[i / 8] ^= (std::byte) (1u << (i % 8)); }
+			bool r = (s2 == std::span<const std::byte>(cmp.data(), cmp.size()));
+			o << "by e " << vh::bitsToString(s2) << ' ' << hex(cmp) << " -> " << r << '\n';
+		}
+	} catch (const std::exception &e) { o << "byerr " << e.what() << '\n'; }
+	o << "end\n";
+}
+
 int main(int argc, char **argv) {
 	uint64_t seed = vh::argU64(argc, argv, 1, 1), ncases = vh::argU64(argc, argv, 2, 100), nops = vh::argU64(argc, argv, 3, 50);
 	std::ios::sync_with_stdio(false);
+	if (argc > 3 && std::string(argv[3]) == "bytes") { // byte-array import / comparison mode
+		Rng top(seed * 0x100000001b3ull + 81818);
+		std::cout << "# prop=C18 bytes seed=" << seed << " cases=" << ncases << "\n";
+		for (uint64_t k = 0; k < ncases; k++) { Rng rng = top.fork(); bytesCase(k, rng, std::cout); }
+		return 0;
+	}
 	if (argc > 3 && std::string(argv[3]) == "sig") { // signal-handle import/export mode
 		Rng top(seed * 0x100000001b3ull + 51818);
 		std::cout << "# prop=C18 sighandle seed=" << seed << " cases=" << ncases << "\n";
